@@ -86,6 +86,12 @@ SegClasses == {"a.txt", "sub", "index.html", "b.txt", ".", "..", "", "%2e%2e", "
 CoreClasses == {"sub", ".", "..", "", "%2e%2e", "root", "parent", "canary.txt", "secret.txt", "a.txt"}
 SegSeqs == UNION { [1..n -> SegClasses] : n \in 0..(IF MaxSegs < 4 THEN MaxSegs ELSE 4) }
            \cup UNION { [1..n -> CoreClasses] : n \in 5..MaxSegs }
+\* absolute components (C07 names them): the absolute path of the directory ABOVE the root's parent, after 0..3 empty
+\* segments (a doubled / tripled slash is what makes the remainder of a target an absolute path) and after a plain name
+AbsTails == { <<"canary2.txt">>, <<"secret.txt">>, <<"parent", "canary.txt">>, <<"parent", "secret.txt">>, <<"parent", "index.html">>,
+              <<"parent", "root", "a.txt">>, <<"parent", "..", "canary2.txt">> }
+AbsHeads == { <<>>, <<"">>, <<"", "">>, <<"", "", "">>, <<"sub", "", "">>, <<"..", "", "">>, <<".", "", "">> }
+AbsSeqs == { h \o <<"ABS">> \o t : h \in AbsHeads, t \in AbsTails }
 Mounts == {"", "pre", "tar"}
 \* the file a plain request must be answered with (only stated for paths without dot / empty / encoded segments)
 Target(segs) ==
@@ -103,7 +109,7 @@ Init ==
             /\ Emit([k |-> "tile", inst |-> i, flags |-> Instances[i], src |-> Sources[s], tiles |-> SetToSeq(SrvTiles),
                      z |-> CoordFix(q)[1], x |-> CoordFix(q)[2], y |-> CoordFix(q)[3],
                      accept |-> TokSeq(S, FALSE), header |-> Render(S, rd)])
-    ELSE \E m \in Mounts, segs \in SegSeqs :
+    ELSE \E m \in Mounts, segs \in SegSeqs \cup AbsSeqs :
             /\ c = <<m, segs>>
             /\ Emit([k |-> "static", mount |-> m, segs |-> segs, target |-> Target(segs)])
 Next == UNCHANGED vars
